@@ -83,7 +83,7 @@ func vc07Source(src int, s1, s2 int64) (*Subtitles, error) {
 		vtsData = append(vtsData, vpesData(100, p(110+s1), vpes(vheader(0, 8, 8, true, true, 0))))
 		vtsData = append(vtsData, vpesData(100, p(160+s2), vpes(vheader(0, 8, 8, true, true, 0), vrow(0, 20, "World"))))
 		vtsData = append(vtsData, vpesData(100, p(170+s2), vpes(vheader(0, 8, 8, true, true, 0))))
-		return ReadFromTeletext(bytes.NewReader(nil), TeletextOptions{PID: 100, Page: 888})
+		return ReadFromTeletext(bytes.NewReader(vtsBytes()), TeletextOptions{PID: 100, Page: 888})
 	}
 }
 
